@@ -178,9 +178,45 @@ let vl_case r k =
   emit ~fn:"LocalityValue" ~tag:(Printf.sprintf "locality_value_col%d" j) ~s:"ok" ~m:"ok"
     [ bm; hexf (fill (zi 0) cols ds); hexf (fill (zi 0) cols ds'); string_of_int j ]
 
+(* WAL / index page locality (theorems C10_wal_page_local, C10_wal_page_damage_local, C10_index_entry_local,
+   C10_index_page_damage_local): a multi-page segment / index file harvested from C17's / C18's driver (valid files written
+   by their Coq reference writers, and their malformed ones - the theorems hold for ALL byte strings); one page is replaced
+   by junk, a damaged copy, zeros, a copy with a damaged header, a page of ANOTHER file or another page of the same file
+   (valid page at the wrong place: the base offset / page number must not matter).  The harness checks the decomposition. *)
+let big_rows : (string, string array) Hashtbl.t = Hashtbl.create 4
+let big e =
+  match Hashtbl.find_opt big_rows e with
+  | Some a -> a
+  | None ->
+    let a = match Hashtbl.find_opt corpus e with
+      | None -> [||]
+      | Some arr -> Array.of_list (List.filter_map (fun (h, _, _) -> if String.length h / 2 >= 16384 then Some h else None) (Array.to_list arr)) in
+    Hashtbl.replace big_rows e a; a
+let loc2_case r k =
+  let e, fn = if k mod 2 = 0 then ("ParseWALFile", "LocalityWAL") else ("ParseIndexFile", "LocalityIndex") in
+  let rows = big e in
+  if Array.length rows > 0 then begin
+    let h = rows.((k / 2) mod Array.length rows) in
+    let a = Array.of_list (unhex h) in
+    let np = Array.length a / 8192 in
+    let j = if fn = "LocalityIndex" && rint r 4 <> 0 then 1 + rint r (np - 1) else rint r np in
+    let page arr i = Array.to_list (Array.sub arr (i * 8192) 8192) in
+    let fit l = List.filteri (fun i _ -> i < 8192) (l @ List.init 8192 (fun _ -> byte_of_int 0)) in
+    let repl, tag = match rint r 6 with
+      | 0 -> (rbytes r 8192, "junk")
+      | 1 -> (fit (corrupt r (page a j)), "corrupt_copy")
+      | 2 -> let o = Array.of_list (unhex rows.(rint r (Array.length rows))) in (page o (rint r (Array.length o / 8192)), "foreign_page")
+      | 3 -> (List.init 8192 (fun _ -> byte_of_int 0), "zeros")
+      | 4 -> (List.mapi (fun i b -> if i < 24 && rbool r then rbyte r |> byte_of_int else b) (page a j), "header_damaged")
+      | _ -> (page a ((j + 1 + rint r (np - 1)) mod np), "sibling_page") in
+    emit ~fn ~tag:(Printf.sprintf "%s.%s.%s" (String.lowercase_ascii fn) tag (if j = 0 then "first" else "later")) ~s:"ok" ~m:"ok"
+      [ h; string_of_int j; hexf repl ]
+  end
+
 let gen seed n =
   for k = 0 to n - 1 do gen_case (rng_for seed k) k done;
   for k = 0 to n / 3 do corpus_case (rng_for seed (7000000 + k)) k done;
   for k = 0 to n / 30 do vl_case (rng_for seed (9000000 + k)) k done;
-  for k = 0 to n / 10 do loc_case (rng_for seed (5000000 + k)) k done
+  for k = 0 to n / 10 do loc_case (rng_for seed (5000000 + k)) k done;
+  for k = 0 to n / 45 do loc2_case (rng_for seed (6000000 + k)) k done
 let () = main gen
